@@ -5,7 +5,14 @@ import ActixNet.Model.Lines
 
 Read side (`next_item` / `Stream::poll_next`, framed.rs:177–233) over an abstract codec and a
 scripted transport; write side (`write`/`start_send`, `flush`/`poll_flush`, `close`/`poll_close`,
-`poll_ready`, framed.rs:161–175, 237–321) over a scripted transport.
+`poll_ready`, framed.rs:161–175, 237–321) over a scripted *buffering* transport (what `poll_write`
+accepted is staged and reaches the wire when the transport's `poll_flush`/`poll_shutdown` completes).
+
+The codec is a parameter of the poll functions, not part of the state: a codec swap
+(`into_map_codec`, `replace_codec`, `into_parts` + `from_parts`, which carry flags and both buffers
+over) is polling on with another codec from the same state; `into_map_io` changes nothing.
+`Framed::from_parts` of `FramedParts::new` / `with_read_buf` is a state with `room = 0` / a
+pre-filled `buf`, flags clear.
 
 The water marks and the comparisons on them are **not** written here: they are the T1 kernels
 `Src.framedLW`, `Src.framedHW`, `Src.framedRdNeedReserve`, … regenerated from framed.rs by
@@ -324,10 +331,9 @@ def wflush (s : WState) : WRes × WState := wflushLoop (s.wscript.length + 2) s
 def wready (s : WState) : WRes × WState :=
   if framedWriteReady s.wbuf.length then (.ok, s) else wflush s
 
-/-- `Framed::close` = `Sink::poll_close` **as the property demands** ("flush write buffer and
-shutdown underlying I/O stream", the function's own doc comment): flush the buffer, then shut the
-transport down.  The unchanged tree flushes only the transport (finding F4); the model follows the
-fix in /verif/fixes/C14-close-flush.patch -/
+/-- `Framed::close` = `Sink::poll_close` ("flush write buffer and shutdown underlying I/O stream"):
+flush the buffer (and the transport), then shut the transport down.  (Before the fix of finding F4,
+/verif/fixes/C14-close-flush.patch, the tree flushed only the transport.) -/
 def wclose (s : WState) : WRes × WState :=
   match wflush s with
   | (.ok, s1) => ioShutdown s1
